@@ -193,6 +193,66 @@ Theorem C19_bad_content_type_refused : forall st a m s mb bd,
   exists l, expand st a = Err (CompileErrors l).
 Proof. exact bad_content_type_refused. Qed.
 
+(* ---- the trait-level tag configuration ---- *)
+
+(* the configuration the generated api_description() / stub_api_description()
+   start from is the one written in [tag_config = { .. }], field by field
+   (left out: allow_other_tags = false, policy = Any); without the argument it
+   is the default, which allows everything *)
+Theorem C19_tag_config_as_declared : forall t,
+  tc_allow_other_tags (trait_tag_config (Some t))
+    = match ta_allow_other_tags t with Some b => b | None => false end /\
+  tc_policy (trait_tag_config (Some t))
+    = match ta_policy t with Some p => p | None => TPAny end /\
+  tc_tags (trait_tag_config (Some t)) = ta_tags t /\
+  trait_tag_config None = mkTagConfig true TPAny [].
+Proof. exact trait_tag_config_fields. Qed.
+
+(* an endpoint is registered iff it complies: unpublished, or the number of
+   its tags fits the policy and (unless other tags are allowed) each is a
+   configured tag *)
+Theorem C19_registered_iff_complies : forall c e,
+  is_ok (validate_tags c e) = complies c (e_tags e) (e_visible e).
+Proof. exact validate_tags_complies. Qed.
+
+(* the description is built iff every endpoint complies, and the refused
+   operations are exactly the declarations that do not *)
+Theorem C19_build_ok_iff : forall c eps,
+  build_errors c eps = [] <->
+  forall e, In e eps -> complies c (e_tags e) (e_visible e) = true.
+Proof. exact build_ok_iff. Qed.
+
+Theorem C19_refused_are_the_noncompliant_declarations : forall c st eps es,
+  expand_all st eps = Some es ->
+  map fst (build_errors c es) =
+  map declared_opid (filter (fun a => negb (complies c (a_tags a) (negb (a_unpublished a)))) eps).
+Proof. exact build_errors_declared. Qed.
+
+(* a declared policy is in force *)
+Theorem C19_declared_policy_in_force : forall t e,
+  e_visible e = true ->
+  (ta_policy t = Some TPAtLeastOne -> e_tags e = [] ->
+     validate_tags (trait_tag_config (Some t)) e = Err TENeedOne) /\
+  (ta_policy t = Some TPExactlyOne -> length (e_tags e) <> 1%nat ->
+     validate_tags (trait_tag_config (Some t)) e = Err TEExactlyOne).
+Proof. exact declared_policy_in_force. Qed.
+
+(* free functions, trait implementation and stub are refused alike *)
+Theorem C19_tag_check_styles_agree : forall c st st' eps es es',
+  expand_all st eps = Some es -> expand_all st' eps = Some es' ->
+  build_errors c es = build_errors c es'.
+Proof. exact build_styles_agree. Qed.
+
+(* the model satisfies the executable specification [spec_tagcfg] used on
+   implementation runs *)
+Theorem C19_tagcfg_model_meets_spec : forall arg eps es_f es_i es_s,
+  expand_all Function eps = Some es_f -> expand_all TraitImpl eps = Some es_i ->
+  expand_all TraitStub eps = Some es_s ->
+  let c := trait_tag_config arg in
+  spec_tagcfg arg eps [Some c; Some c]
+    [refused_codes c es_f; refused_codes c es_i; refused_codes c es_s] true = true.
+Proof. exact tagcfg_model_meets_spec. Qed.
+
 (* ---- the executable specification used on implementation runs ---- *)
 
 (* [spec_decl] (Macro.v) is the property in executable form over what the
@@ -232,6 +292,17 @@ Example C19_example_expand :
   | _, _ => False
   end.
 Proof. vm_compute. repeat split; discriminate. Qed.
+
+Example C19_tag_policy_example :
+  (* tag_config = { allow_other_tags = true, policy = AtLeastOne, tags = {} } *)
+  let c := trait_tag_config (Some (mkTcArg (Some true) (Some TPAtLeastOne) [])) in
+  tc_policy c = TPAtLeastOne /\
+  match expand TraitStub (mkAttr (KEndpoint GET None None BNone) ex_path [] None false false
+                            VSAbsent [] ex_name) with
+  | Ok e => validate_tags c e = Err TENeedOne
+  | Err _ => False
+  end.
+Proof. vm_compute. repeat split. Qed.
 
 Example C19_example_refusals :
   (* "2.0.0".."1.0.0" *)
@@ -295,3 +366,10 @@ Print Assumptions C19_wildcard_needs_unpublished.
 Print Assumptions C19_channel_wildcard_refused.
 Print Assumptions C19_bad_content_type_refused.
 Print Assumptions C19_model_meets_spec.
+Print Assumptions C19_tag_config_as_declared.
+Print Assumptions C19_registered_iff_complies.
+Print Assumptions C19_build_ok_iff.
+Print Assumptions C19_refused_are_the_noncompliant_declarations.
+Print Assumptions C19_declared_policy_in_force.
+Print Assumptions C19_tag_check_styles_agree.
+Print Assumptions C19_tagcfg_model_meets_spec.
